@@ -234,6 +234,12 @@ impl<T> RawTable<T> {
     #[cfg_attr(feature = "inline-more", inline)]
     pub(crate) fn insert(&mut self, hash: u64, value: T, hasher: impl Fn(&T) -> u64) -> Bucket<T> {
         if self.table.capacity() == self.table.len() {
+            if self.leftovers.as_ref().map_or(false, |lo| lo.table.len() == 0) {
+                // `erase` and `replace_bucket_with` can empty the old table without freeing it
+                // (only `remove` and `carry` do that), so it may still be around even though
+                // there is nothing left to move. It is not in the way of another resize.
+                let _ = self.leftovers.take();
+            }
             assert!(self.leftovers.is_none());
             // Even though this _may_ succeed without growing due to tombstones, handling
             // that case is convoluted, so we just assume this would grow the map.
